@@ -50,6 +50,16 @@ CHECKS = {
          'colours x every function x a dense amount/angle/weight grid, under the observation the property prescribes (nearest, either '
          'neighbour at a tie; mix within one unit).'),
    note=BASE_NOTE + ' No float error analysis: that the double computation rounds like the exact value away from ties is what the grid run validates.'),
+ 'C02': dict(category='proof',
+   technique='Lean 4: model of Identifier.parse/root and of the two passes over the scope stack, theorem model = recursive flattening by mutual induction; differential correspondence',
+   text=('C02_stack/C02: for every rule tree (any depth, width, selectors) the two-pass model with an explicit scope stack (frame pushed at {, '
+         'name parsed against the innermost frame with a current name, then set) equals the plain recursive flattening. C02_once_dfs: each source '
+         'rule with declarations yields exactly one output rule with exactly its own declarations, depth-first, a rule before its nested rules. '
+         'C02_count/tuples_mem: without & one selector per parent, with k ampersands one per k-tuple of parents (all of them). C02_amp: every & is '
+         'replaced textually, in order, by the tuple member; C02_desc/C02_comb: descendant space by default, dropped before a written combinator. '
+         'Tie: the model (list order included) equals the real output on a 3x42x3 placement catalogue under two layouts and on random trees to depth 7; '
+         'an independent string-level oracle checks the property itself (selector set, rule order, declarations).'),
+   note=BASE_NOTE + ' Open known finding C02-star-amp. Fragment boundaries (element after &-suffix, * in the middle) are syntax errors of the front end and are not generated.'),
 }
 NOT_APPLICABLE = {p: 'check under construction in this round (see DESIGN.md section 10 build order); not claimed yet' for p in
-  ['C01','C02','C03','C05','C07','C10','C11','C12','C13','C14','C15','C16','C18','C19','C20']}
+  ['C01','C03','C05','C07','C10','C11','C12','C13','C14','C15','C16','C18','C19','C20']}
